@@ -50,6 +50,7 @@ class Ctx:
         self.stopped_by_budget = False
         self.replaying = False
         self.cross = {}
+        self.dsets = {}
 
     # reporting -----------------------------------------------------------
     def count(self, name, n=1):
@@ -71,6 +72,10 @@ class Ctx:
         if len(lst) < 2:
             lst.append({"msg": msg, "case": case, "witness": witness})
 
+    def distinct(self, name, value):
+        """count distinct observed values (e.g. digests of on-air event orders) across shards"""
+        self.dsets.setdefault(name, set()).add(_h(value))
+
     def cross_obs(self, prop, key, msg):
         d = self.cross.setdefault(prop + "/" + key, {"n": 0, "first": msg})
         d["n"] += 1
@@ -90,6 +95,7 @@ class Ctx:
             "samples": self.samples, "violations": self.violations,
             "vcount": self.vcount, "evaluations": self.evaluations,
             "stopped_by_budget": self.stopped_by_budget, "cross": self.cross,
+            "dsets": {k: sorted(v) for k, v in self.dsets.items()},
             "wall_s": W.REAL_MONOTONIC() - self.t_start,
         }
 
@@ -215,6 +221,7 @@ def main(argv=None):
 def finish(prop, mod, tier, seed, results, crashed, wall, nshards):
     stats, clauses, vcount, cross = {}, {}, {}, {}
     sigs = set()
+    dsets = {}
     samples = []
     violations = {}
     evaluations = 0
@@ -230,6 +237,8 @@ def finish(prop, mod, tier, seed, results, crashed, wall, nshards):
             d = cross.setdefault(k, {"n": 0, "first": v["first"]})
             d["n"] += v["n"]
         sigs.update(r["sigs"])
+        for k, v in r.get("dsets", {}).items():
+            dsets.setdefault(k, set()).update(v)
         for s in r["samples"]:
             if len(samples) < 5:
                 samples.append(s)
@@ -274,6 +283,7 @@ def finish(prop, mod, tier, seed, results, crashed, wall, nshards):
         "samples": samples[:5],
         "clause_evaluations": clauses,
         "counters": stats,
+        "distinct_observed": {k: len(v) for k, v in dsets.items()},
         "shards": nshards,
         "shards_stopped_by_wall_budget": stopped,
         "shards_crashed": [c[0] for c in crashed],
